@@ -880,6 +880,11 @@ def law_cases(g: Gen) -> List[Any]:
     out.append(["all", 2, ["filter", 1, li, p], ["in", ["v", 2], li]])                   # filter yields elements of l
     out.append(["==", ["exists_one", 1, li, p], ["==", ["size", ["filter", 1, li, p]], ["i", 1]]])
     s, t = ["s", g.gstr()], ["s", g.gstr()]
+    if r.random() < 0.4:                       # white space / line breaks at the edges are ordinary characters
+        w = r.choice([10, 32, 9])
+        t = ["s", ([w] if r.random() < 0.5 else []) + t[1] + ([w] if r.random() < 0.7 else [])]
+        s = ["s", ([w] if r.random() < 0.5 else []) + s[1]]
+    out.append(["contains", ["++", ["++", s, t], s], t])
     out.append(["startsWith", ["++", s, t], s])
     out.append(["endsWith", ["++", s, t], t])
     out.append(["==", ["size", ["++", s, t]], ["+", ["size", s], ["size", t]]])
